@@ -8,6 +8,7 @@ package main
 // else is reported with the first order-dependent statement.
 
 import (
+	"regexp"
 	"fmt"
 	"go/ast"
 	"go/constant"
@@ -1442,7 +1443,7 @@ func (md *mapdet) totalOrder(info *types.Info, call *ast.CallExpr, obj types.Obj
 		}
 		return md.scalarElem(info, obj), "natural order on scalar elements"
 	case "sort.Sort", "sort.Stable":
-		return false, "sort.Sort with a user-defined Less (needs review)"
+		return false, "sort.Sort with a user-defined Less (needs review)" + md.lessMethodText(info, call)
 	}
 	if len(call.Args) < 2 {
 		return false, "no comparator"
@@ -1451,6 +1452,106 @@ func (md *mapdet) totalOrder(info *types.Info, call *ast.CallExpr, obj types.Obj
 	if !ok {
 		return false, "comparator is not a function literal"
 	}
+	tot, why := md.totalOrder1(info, call, obj, lc, elemIsKey, elem, fl, full)
+	if !tot {
+		why += comparatorText(fl, obj.Name())
+	}
+	return tot, why
+}
+
+// comparatorText renders what a comparator compares, with the sorted slice
+// written S and the parameters p0, p1: a reviewed entry that accepts a
+// comparator as total is bound to this text (side condition
+// "detail-contains:"), so that a different comparator is a new obligation.
+func comparatorText(fl *ast.FuncLit, slice string) string {
+	var names []string
+	for _, f := range fl.Type.Params.List {
+		for _, n := range f.Names {
+			names = append(names, n.Name)
+		}
+	}
+	var parts []string
+	for _, st := range fl.Body.List {
+		switch x := st.(type) {
+		case *ast.ReturnStmt:
+			for _, e := range x.Results {
+				parts = append(parts, "return "+types.ExprString(e))
+			}
+		case *ast.AssignStmt:
+			var l, r []string
+			for _, e := range x.Lhs {
+				l = append(l, types.ExprString(e))
+			}
+			for _, e := range x.Rhs {
+				r = append(r, types.ExprString(e))
+			}
+			parts = append(parts, strings.Join(l, ",")+x.Tok.String()+strings.Join(r, ","))
+		case *ast.IfStmt:
+			parts = append(parts, "if "+types.ExprString(x.Cond)+" {…}")
+		default:
+			parts = append(parts, "…")
+		}
+	}
+	text := strings.Join(parts, "; ")
+	ren := func(t, from, to string) string {
+		if from == "" || from == "_" {
+			return t
+		}
+		return regexp.MustCompile(`\b`+regexp.QuoteMeta(from)+`\b`).ReplaceAllString(t, to)
+	}
+	text = ren(text, slice, "S")
+	for i, n := range names {
+		text = ren(text, n, fmt.Sprintf("p%d", i))
+	}
+	return " [comparator: " + text + "]"
+}
+
+// lessMethodText: the same for sort.Sort(x): the body of x's Less method.
+func (md *mapdet) lessMethodText(info *types.Info, call *ast.CallExpr) string {
+	if len(call.Args) != 1 {
+		return ""
+	}
+	tv, ok := info.Types[call.Args[0]]
+	if !ok {
+		return ""
+	}
+	named, ok := tv.Type.(*types.Named)
+	if !ok {
+		if pt, ok2 := tv.Type.(*types.Pointer); ok2 {
+			named, ok = pt.Elem().(*types.Named)
+		}
+		if !ok {
+			return ""
+		}
+	}
+	for i := 0; i < named.NumMethods(); i++ {
+		m := named.Method(i)
+		if m.Name() != "Less" {
+			continue
+		}
+		for _, pkg := range md.w.All {
+			if pkg.Types != m.Pkg() {
+				continue
+			}
+			for _, f := range pkg.Syntax {
+				for _, d := range f.Decls {
+					fd, ok := d.(*ast.FuncDecl)
+					if !ok || fd.Name.Pos() != m.Pos() || fd.Body == nil {
+						continue
+					}
+					recv := ""
+					if fd.Recv != nil && len(fd.Recv.List) > 0 && len(fd.Recv.List[0].Names) > 0 {
+						recv = fd.Recv.List[0].Names[0].Name
+					}
+					return comparatorText(&ast.FuncLit{Type: fd.Type, Body: fd.Body}, recv)
+				}
+			}
+		}
+	}
+	return ""
+}
+
+func (md *mapdet) totalOrder1(info *types.Info, call *ast.CallExpr, obj types.Object, lc *mdCtx, elemIsKey bool, elem ast.Expr, fl *ast.FuncLit, full string) (bool, string) {
 	// collect what the comparator compares: whole elements or fields of elements
 	whole := false
 	fields := map[string]bool{}
